@@ -158,6 +158,7 @@ class Repo:
         for m_ in self.modules.values():
             m_.repo = self
         self._fold_named_constants()
+        self._truthy_defaults()
         self._positional_calls()
         self._specialise_constant_params()
 
@@ -228,6 +229,32 @@ class Repo:
             if d is not None:
                 out.setdefault(p_.arg, d)
         return out
+
+    def _truthy_defaults(self):
+        """`x if x else d` and `d if not x else x` over a pure access path x are written `x or d` (in place)."""
+
+        def pure(e):
+            while isinstance(e, (ast.Attribute, ast.Subscript)):
+                if isinstance(e, ast.Subscript) and not isinstance(e.slice, (ast.Constant, ast.Name)):
+                    return False
+                e = e.value
+            return isinstance(e, ast.Name)
+
+        class T(ast.NodeTransformer):
+            def visit_IfExp(self, n):
+                self.generic_visit(n)
+                t, b, o = n.test, n.body, n.orelse
+                if pure(t) and norm(t) == norm(b):
+                    return ast.copy_location(ast.BoolOp(op=ast.Or(), values=[b, o]), n)
+                if isinstance(t, ast.UnaryOp) and isinstance(t.op, ast.Not) and pure(t.operand) and norm(t.operand) == norm(o):
+                    return ast.copy_location(ast.BoolOp(op=ast.Or(), values=[o, b]), n)
+                return n
+
+        for m_ in self.modules.values():
+            for f in m_.funcs.values():
+                if any(isinstance(x, ast.IfExp) for x in ast.walk(f.node)):
+                    T().visit(f.node)
+                    ast.fix_missing_locations(f.node)
 
     def _positional_calls(self):
         """Calls of program functions are written in one canonical way: every leading parameter that is supplied — by
@@ -1564,6 +1591,57 @@ class _IfExpStmt(ast.NodeTransformer):
             return self._split(st, st.value, lambda v: ast.copy_location(ast.Return(value=v), st))
         return st
 
+    @staticmethod
+    def _call_with_ifexp_arg(call):
+        """index of the single conditional-expression argument of `call` whose hoisting keeps the evaluation order (everything
+        evaluated before it is a plain name / constant / access path), or None"""
+        if not isinstance(call, ast.Call):
+            return None
+        idx = [i for i, a in enumerate(call.args) if isinstance(a, ast.IfExp)]
+        if len(idx) != 1 or any(isinstance(k.value, ast.IfExp) for k in call.keywords):
+            return None
+
+        def plain(e):
+            while isinstance(e, (ast.Attribute, ast.Subscript)):
+                if isinstance(e, ast.Subscript) and not isinstance(e.slice, (ast.Constant, ast.Name, ast.Slice)):
+                    return False
+                e = e.value
+            return isinstance(e, (ast.Name, ast.Constant))
+
+        if not plain(call.func) or not all(plain(a) for a in call.args[: idx[0]]):
+            return None
+        return idx[0]
+
+    def _split_call(self, st, call, i, rebuild):
+        import copy
+
+        ife = call.args[i]
+
+        def with_arg(v):
+            c2 = copy.deepcopy(call)
+            c2.args[i] = v
+            return rebuild(c2)
+
+        return self._split(st, ife, with_arg)
+
+    def visit_Expr(self, st):
+        # f(a, X if c else Y)   ==   if c: f(a, X)  else: f(a, Y)
+        i = self._call_with_ifexp_arg(st.value)
+        if i is not None:
+            return self._split_call(st, st.value, i, lambda c2: ast.copy_location(ast.Expr(value=c2), st))
+        return st
+
+    def visit_With(self, st):
+        # with (A if c else B) as h: BODY   ==   if c: h = A  else: h = B;  with h: BODY
+        self.generic_visit(st)
+        if len(st.items) == 1 and isinstance(st.items[0].context_expr, ast.IfExp) and isinstance(st.items[0].optional_vars, ast.Name):
+            h = st.items[0].optional_vars
+            ife = st.items[0].context_expr
+            sel = ast.copy_location(ast.If(test=ife.test, body=[ast.copy_location(ast.Assign(targets=[ast.Name(id=h.id, ctx=ast.Store())], value=ife.body), st)], orelse=[ast.copy_location(ast.Assign(targets=[ast.Name(id=h.id, ctx=ast.Store())], value=ife.orelse), st)]), st)
+            w = ast.copy_location(ast.With(items=[ast.withitem(context_expr=ast.Name(id=h.id, ctx=ast.Load()), optional_vars=None)], body=st.body), st)
+            return [sel, w]
+        return st
+
     def visit_FunctionDef(self, node):
         if getattr(self, "_root", None) is None:
             self._root = node
@@ -1915,6 +1993,8 @@ def inline_callable_aliases(func):
             return c
 
     def dotted(e):
+        if isinstance(e, ast.Subscript):
+            return isinstance(e.slice, (ast.Constant, ast.Name)) and dotted(e.value)
         return isinstance(e, ast.Name) or (isinstance(e, ast.Attribute) and dotted(e.value))
 
     def block(stmts, env):
@@ -2020,6 +2100,8 @@ def sink_into_branches(func):
                     rest = stmts[i + 1 :]
                     k = 0
                     for j, r in enumerate(rest):
+                        if {n.id for n in ast.walk(r) if isinstance(n, ast.Name) and isinstance(n.ctx, ast.Store)} & common:
+                            break  # the name is bound again: later reads see that binding, not the branch's
                         if {n.id for n in ast.walk(r) if isinstance(n, ast.Name) and isinstance(n.ctx, ast.Load)} & common:
                             k = j + 1
                     if common and k and all(isinstance(r, (ast.For, ast.Expr, ast.Assign, ast.With)) for r in rest[:k]) and sum(len(list(ast.walk(r))) for r in rest[:k]) < 400:
